@@ -429,6 +429,11 @@ func openBracketRule(prefix string, forget bool) (lb int, diverged bool) {
 			if len(stack) > 0 {
 				stack = stack[:len(stack)-1]
 				if !forget {
+					// the brackets stay, but the destination and title of a link that ends here are not
+					// read as text (a backtick or a bracket in them opens nothing)
+					if sp, _, ok := anchorDest(prefix, i); ok {
+						i = linkEndAfterDest(prefix, sp.e) - 1
+					}
 					continue
 				}
 				if sp, _, ok := anchorDest(prefix, i); ok || strings.HasPrefix(prefix[i:], "]()") {
